@@ -8,6 +8,7 @@ namespace HyperModel.Executor
 theorem linv_of_status {s s' : State} {t : Nat} {pre : List KeyReq} {ds : List Nat}
     (h : LInv s t pre ds) (e1 : s'.n = s.n) (e2 : s'.keys = s.keys)
     (e3 : ∀ x, executed s' x = executed s x)
+    (e3e : ∀ x, ended s x = true → ended s' x = true)
     (e3' : ∀ x, s'.status x = .waiting ↔ s.status x = .waiting)
     (e4 : ∀ j, j < t → s'.deps j = s.deps j) (e5 : s'.blocked = s.blocked) (e6 : s'.readers = s.readers)
     (e7 : s'.reading = s.reading) (e8 : s'.nodes = s.nodes) : LInv s' t pre ds := by
@@ -27,24 +28,24 @@ theorem linv_of_status {s s' : State} {t : Nat} {pre : List KeyReq} {ds : List N
     rw [hcnt, e4 j hj]
     exact h.cntlt j hj ((e3' j).mp hw)
   · intro i j hij hj hc
-    rw [e2] at hc; rw [e3]
+    rw [e2] at hc
     rcases h.safe i j hij hj hc with a | a
-    · exact Or.inl a
+    · exact Or.inl (e3e _ a)
     · exact Or.inr (hch _ _ a)
   · intro i hi x hx y hy hk hr
-    rw [e2] at hx; rw [e3]
+    rw [e2] at hx
     rcases h.newsafe i hi x hx y hy hk hr with a | a
-    · exact Or.inl a
+    · exact Or.inl (e3e _ a)
     · exact Or.inr (hch _ _ a)
   · intro k o hk
     rw [e8] at hk
     obtain ⟨h1, h2, h3⟩ := h.own k o hk
     refine ⟨by rw [e1]; exact h1, h2, ?_⟩
     intro i rd hi hm hio
-    rw [e2] at hm; rw [e1] at hi; rw [e3, e6]
+    rw [e2] at hm; rw [e1] at hi; rw [e6]
     rcases h3 i rd hi hm hio with a | a | a | a
     · exact Or.inl a
-    · exact Or.inr (Or.inl a)
+    · exact Or.inr (Or.inl (e3e _ a))
     · exact Or.inr (Or.inr (Or.inl (hch _ _ a)))
     · exact Or.inr (Or.inr (Or.inr a))
   · intro k hk i rd hi hm
@@ -71,18 +72,15 @@ theorem countP_lt_of_mem {l : List Nat} {p : Nat → Bool} {d : Nat} (hd : d ∈
 theorem linv_complete {s : State} {d : Nat} {st : Status} {order : List Nat} {t : Nat}
     {pre : List KeyReq} {ds : List Nat} {maxDeps : Nat} (h : LInv s t pre ds)
     (hctr : CtrOk s t ds maxDeps) (hbound : ds = [] ∨ ds.length < maxDeps)
-    (hd : d < s.n) (hrun : s.status d = .running ∨ s.status d = .queued)
+    (hd : d < s.n) (hst : s.status d ≠ .waiting) (hexd0 : executed s d = false)
     (hex : st = .done ∨ st = .skipped) :
     LInv (complete s d st order) t pre ds ∧ CtrOk (complete s d st order) t ds maxDeps := by
-  have hst : s.status d ≠ .waiting := by rcases hrun with a | a <;> rw [a] <;> simp
   have hdt : d ≠ t := by intro e; subst e; exact hst h.st_t
   have hfree : ∀ x, s.blocked x d = false := by
     intro x
     cases hb : s.blocked x d with
     | false => rfl
     | true => exact absurd (h.blk x d hb).2.2.2 hst
-  have hexd0 : executed s d = false := by
-    rw [executed_false_iff]; rcases hrun with a | a <;> rw [a] <;> simp
   have hexd : executed (complete s d st order) d = true := by
     rw [executed_iff, complete_status]; simpa using hex
   -- t is not sent early: its counter stays positive
@@ -118,6 +116,19 @@ theorem linv_complete {s : State} {d : Nat} {st : Status} {order : List Nat} {t 
     rw [complete_status]
     simp only [hid, if_false]
     split <;> simp [hi.1, hi.2]
+  have hendmono : ∀ i, ended s i = true → ended (complete s d st order) i = true := by
+    intro i hi
+    by_cases hid : i = d
+    · rw [hid]; exact ended_of_executed hexd
+    · have hnw : s.status i ≠ .waiting := by
+        intro e; unfold ended at hi; rw [e] at hi; cases hi
+      have : s.blocked d i = false := by
+        cases hb : s.blocked d i with
+        | false => rfl
+        | true => exact absurd (h.blk d i hb).2.2.2 hnw
+      unfold ended at hi ⊢
+      rw [complete_status]
+      simpa [hid, this] using hi
   have hchain : ∀ i j, i ≠ d → Chain s i j → Chain (complete s d st order) i j := by
     intro i j hi c
     refine c.remove_row (d0 := d) ?_ hfree hi
@@ -192,16 +203,16 @@ theorem linv_complete {s : State} {d : Nat} {st : Status} {order : List Nat} {t 
   · -- safe
     intro i j hij hj hc
     by_cases hid : i = d
-    · left; rw [hid]; exact hexd
+    · left; rw [hid]; exact ended_of_executed hexd
     · rcases h.safe i j hij hj hc with he | hch
-      · left; exact hexmono i he
+      · left; exact hendmono i he
       · right; exact hchain i j hid hch
   · -- newsafe
     intro i hi x hx y hy hk hr
     by_cases hid : i = d
-    · left; rw [hid]; exact hexd
+    · left; rw [hid]; exact ended_of_executed hexd
     · rcases h.newsafe i hi x hx y hy hk hr with he | hch
-      · left; exact hexmono i he
+      · left; exact hendmono i he
       · right; exact hchain i t hid hch
   · -- own
     intro k o hk
@@ -209,10 +220,10 @@ theorem linv_complete {s : State} {d : Nat} {st : Status} {order : List Nat} {t 
     refine ⟨ho, h2, ?_⟩
     intro i rd hi hmem hio
     by_cases hid : i = d
-    · right; left; rw [hid]; exact hexd
+    · right; left; rw [hid]; exact ended_of_executed hexd
     · rcases hrest i rd hi hmem hio with a | he | hch | ⟨hrd, hr⟩
       · exact Or.inl a
-      · right; left; exact hexmono i he
+      · right; left; exact hendmono i he
       · right; right; left; exact hchain i o hid hch
       · right; right; right
         refine ⟨hrd, ?_⟩
@@ -282,6 +293,14 @@ theorem LInv.finish' {s1 : State} {t : Nat} {ks : List KeyReq} {ds : List Nat}
       rw [this, executed_false_iff]
       rcases e_stt with a | a <;> rw [a.2] <;> simp
     · simp [executed, e_st i hi]
+  have hende : ∀ i, ended s2 i = ended s1 i := by
+    intro i
+    by_cases hi : i = t
+    · subst hi
+      unfold ended
+      rw [h.st_t]
+      rcases e_stt with a | a <;> rw [a.2]
+    · simp [ended, e_st i hi]
   have hch : ∀ i j, Chain s1 i j → Chain s2 i j :=
     fun i j c => Chain.mono (s := s1) (s' := s2) (fun _ _ hb => by rw [e_bl]; exact hb) c
   have hcnt : ∀ j, cnt s2 j = cnt s1 j := by intro j; unfold cnt; rw [e_n, e_bl]
@@ -316,7 +335,7 @@ theorem LInv.finish' {s1 : State} {t : Nat} {ks : List KeyReq} {ds : List Nat}
     exact ⟨h1, by rw [e_n]; exact h2, by rw [hexe]; exact h3, by rw [e_rg]; exact h4⟩
   · intro i j hij hj hc
     rw [e_keys] at hc
-    rw [hexe]
+    rw [hende]
     by_cases hjt : j = t
     · subst hjt
       rw [conflictKeys_iff] at hc
@@ -335,7 +354,7 @@ theorem LInv.finish' {s1 : State} {t : Nat} {ks : List KeyReq} {ds : List Nat}
     intro i rd hi hm hio
     rw [e_keys] at hm
     rw [e_n] at hi
-    rw [hexe, e_rd]
+    rw [hende, e_rd]
     rcases h3 i rd hi hm hio with a | a | a | a
     · exfalso
       obtain ⟨rfl, a2⟩ := a
@@ -433,46 +452,6 @@ theorem RInv.blk {fs : FState} (h : RInv fs) : ∀ d j, fs.s.blocked d j = true 
   · exact h.blk
   · exact h.linv.blk
 
-/-- dequeue of the head of the channel by a worker that sees no error -/
-theorem qinv_start {s : State} {j : Nat} (hq0 : QInv s) (hhead : s.queue.head? = some j) :
-    QInv (apply s (.start j)) ∧ j < s.n ∧ s.status j = .queued := by
-  obtain ⟨rest, hq⟩ := head_mem hhead
-  have hjq : j < s.n ∧ s.status j = .queued := (hq0.q_iff j).mp (by rw [hq]; simp)
-  have hnd := hq0.q_nd
-  rw [hq, List.nodup_cons] at hnd
-  have hst : ∀ x, (apply s (.start j)).status x = if x = j then .running else s.status x := fun _ => rfl
-  refine ⟨⟨?_, ?_, ?_⟩, hjq⟩
-  · intro x
-    show x ∈ s.queue.tail ↔ x < s.n ∧ (apply s (.start j)).status x = .queued
-    rw [hst, hq, List.tail_cons]
-    by_cases hx : x = j
-    · subst hx; simp [hnd.1]
-    · simp only [hx, if_false]
-      rw [← hq0.q_iff x, hq]; simp [hx]
-  · show s.queue.tail.Nodup
-    rw [hq]; exact hnd.2
-  · intro x hx
-    rw [hst]
-    have : x ≠ j := by have := hjq.1; have : s.n ≤ x := hx; omega
-    simp only [this, if_false]
-    exact hq0.hi x hx
-
-theorem executed_start {s : State} {j : Nat} (hjq : s.status j = .queued) :
-    (∀ x, executed (apply s (.start j)) x = executed s x) ∧
-    (∀ x, (apply s (.start j)).status x = .waiting ↔ s.status x = .waiting) := by
-  have hst : ∀ x, (apply s (.start j)).status x = if x = j then .running else s.status x := fun _ => rfl
-  constructor
-  · intro x
-    simp only [executed, hst]
-    by_cases hx : x = j
-    · subst hx; simp [hjq]; decide
-    · simp [hx]
-  · intro x
-    rw [hst]
-    by_cases hx : x = j
-    · subst hx; simp [hjq]
-    · simp [hx]
-
 theorem countP_exec_regKey {s : State} {t : Nat} {pre pre' : List KeyReq} {ds : List Nat} {kr : KeyReq}
     (h : LInv s t pre ds) (h' : LInv (regKey t (s, ds) kr).1 t pre' (regKey t (s, ds) kr).2) :
     (regKey t (s, ds) kr).2.countP (executed (regKey t (s, ds) kr).1) = ds.countP (executed s) := by
@@ -544,6 +523,193 @@ theorem QInv.push_last {s s' : State} {t : Nat} (h : QInv s) (hn : s.n = t + 1)
     simp only [this, if_false]
     exact h.hi j hj
 
+
+/-! ## The steps of `runTask` -/
+
+/-- changes of `status` (and of err / log / waited / queue) that keep `executed` and
+"waiting" pointwise and can only make more tasks `ended` -/
+theorem rinv_status {fs : FState} {s' : State} (h : RInv fs) (e1 : s'.n = fs.s.n)
+    (e2 : s'.keys = fs.s.keys) (e3 : ∀ x, executed s' x = executed fs.s x)
+    (e3e : ∀ x, ended fs.s x = true → ended s' x = true)
+    (e3' : ∀ x, s'.status x = .waiting ↔ fs.s.status x = .waiting)
+    (e4 : s'.deps = fs.s.deps) (e5 : s'.blocked = fs.s.blocked) (e6 : s'.readers = fs.s.readers)
+    (e7 : s'.reading = fs.s.reading) (e8 : s'.nodes = fs.s.nodes) :
+    RInv { fs with s := s' } := by
+  unfold RInv at h ⊢
+  cases hreg : fs.reg with
+  | none =>
+    rw [hreg] at h
+    simp only [hreg]
+    exact inv_of_status h e1 e2 e3 e3e e3' e4 e5 e6 e7 e8
+  | some r =>
+    rw [hreg] at h
+    simp only [hreg]
+    refine ⟨linv_of_status h.linv e1 e2 e3 e3e e3' (fun j _ => by rw [e4]) e5 e6 e7 e8,
+      by show s'.keys r.t = _; rw [e2]; exact h.keys_t, h.nd, ?_, h.bound⟩
+    show CtrOk s' r.t r.ds fs.maxDeps
+    unfold CtrOk
+    have : r.ds.countP (executed s') = r.ds.countP (executed fs.s) :=
+      List.countP_congr (fun x _ => by rw [e3 x])
+    rw [this, e4]; exact h.ctr
+
+/-- `delete(o.readers, j)` under `o.l` -/
+def deregS (s : State) (j o : Nat) : State :=
+  { s with
+    readers := fun o' r => if o' = o ∧ r = j then false else s.readers o' r
+    reading := fun x => if x = j then (s.reading j).filter (· != o) else s.reading x }
+
+theorem chain_dereg {s : State} {j o a b : Nat} (c : Chain s a b) : Chain (deregS s j o) a b :=
+  Chain.mono (s := s) (s' := deregS s j o) (fun _ _ hb => hb) c
+
+theorem rdr_dereg {s : State} {j o : Nat}
+    (hr : ∀ o' r, s.readers o' r = true → o' < r ∧ r < s.n ∧ executed s r = false ∧ o' ∈ s.reading r) :
+    ∀ o' r, (deregS s j o).readers o' r = true →
+      o' < r ∧ r < (deregS s j o).n ∧ executed (deregS s j o) r = false ∧ o' ∈ (deregS s j o).reading r := by
+  intro o' r h
+  have h' : (if o' = o ∧ r = j then false else s.readers o' r) = true := h
+  by_cases hc : o' = o ∧ r = j
+  · simp [hc] at h'
+  · simp only [hc, if_false] at h'
+    obtain ⟨h1, h2, h3, h4⟩ := hr o' r h'
+    refine ⟨h1, h2, h3, ?_⟩
+    show o' ∈ (if r = j then (s.reading j).filter (· != o) else s.reading r)
+    by_cases hrj : r = j
+    · subst hrj
+      have : o' ≠ o := fun e => hc ⟨e, rfl⟩
+      simp [List.mem_filter, h4, this]
+    · simp [hrj, h4]
+
+theorem inv_dereg {s : State} {j o : Nat} (h : Inv s) (hend : ended s j = true) :
+    Inv (deregS s j o) := by
+  refine ⟨h.blk, h.cnt, rdr_dereg h.rdr, ?_, ?_, h.free⟩
+  · intro a b hab hb hc
+    rcases h.safe a b hab hb hc with x | x
+    · exact Or.inl x
+    · exact Or.inr (chain_dereg x)
+  · intro k ow hk
+    obtain ⟨h1, h3⟩ := h.own k ow hk
+    refine ⟨h1, ?_⟩
+    intro i rd hi hm hio
+    rcases h3 i rd hi hm hio with x | x | x
+    · exact Or.inl x
+    · exact Or.inr (Or.inl (chain_dereg x))
+    · by_cases hc : ow = o ∧ i = j
+      · left; rw [hc.2]; exact hend
+      · right; right
+        refine ⟨x.1, ?_⟩
+        show (if ow = o ∧ i = j then false else s.readers ow i) = true
+        simp [hc, x.2]
+
+theorem linv_dereg {s : State} {j o t : Nat} {pre : List KeyReq} {ds : List Nat}
+    (h : LInv s t pre ds) (hend : ended s j = true) : LInv (deregS s j o) t pre ds := by
+  refine ⟨h.n_eq, h.st_t, h.blk, rdr_dereg h.rdr, h.cntlt, ?_, ?_, ?_, h.free, h.dsnd, h.ds_sup, h.ds_live⟩
+  · intro a b hab hb hc
+    rcases h.safe a b hab hb hc with x | x
+    · exact Or.inl x
+    · exact Or.inr (chain_dereg x)
+  · intro i hi x hx y hy hk hr
+    rcases h.newsafe i hi x hx y hy hk hr with z | z
+    · exact Or.inl z
+    · exact Or.inr (chain_dereg z)
+  · intro k ow hk
+    obtain ⟨h1, h2, h3⟩ := h.own k ow hk
+    refine ⟨h1, h2, ?_⟩
+    intro i rd hi hm hio
+    rcases h3 i rd hi hm hio with x | x | x | x
+    · exact Or.inl x
+    · exact Or.inr (Or.inl x)
+    · exact Or.inr (Or.inr (Or.inl (chain_dereg x)))
+    · by_cases hc : ow = o ∧ i = j
+      · right; left; rw [hc.2]; exact hend
+      · right; right; right
+        refine ⟨x.1, ?_⟩
+        show (if ow = o ∧ i = j then false else s.readers ow i) = true
+        simp [hc, x.2]
+
+/-- a status change at one registered, non-queued, non-waiting task to another non-queued,
+non-waiting status -/
+theorem QInv.set_status {s s' : State} {j : Nat} {v : Status} (h : QInv s) (hj : s.status j ≠ .queued)
+    (hjw : s.status j ≠ .waiting) (hv : v ≠ .queued) (e1 : s'.n = s.n)
+    (e2 : ∀ x, s'.status x = if x = j then v else s.status x) (e3 : s'.queue = s.queue) : QInv s' := by
+  have hjn : j < s.n := by
+    apply Classical.byContradiction
+    intro hlt; exact hjw (h.hi j (by omega))
+  refine ⟨?_, by rw [e3]; exact h.q_nd, ?_⟩
+  · intro x
+    rw [e1, e2, e3, h.q_iff]
+    by_cases hx : x = j
+    · subst hx; simp [hj, hv]
+    · simp [hx]
+  · intro x hx
+    rw [e1] at hx
+    rw [e2]
+    have : x ≠ j := by omega
+    simp only [this, if_false]; exact h.hi x hx
+
+/-- `<-e.executable` -/
+theorem QInv.pop {s s' : State} {j : Nat} {v : Status} (h : QInv s) (hhead : s.queue.head? = some j)
+    (hv : v ≠ .queued) (e1 : s'.n = s.n)
+    (e2 : ∀ x, s'.status x = if x = j then v else s.status x) (e3 : s'.queue = s.queue.tail) :
+    QInv s' ∧ j < s.n ∧ s.status j = .queued := by
+  obtain ⟨rest, hq⟩ := head_mem hhead
+  have hjq : j < s.n ∧ s.status j = .queued := (h.q_iff j).mp (by rw [hq]; simp)
+  have hnd := h.q_nd
+  rw [hq, List.nodup_cons] at hnd
+  refine ⟨⟨?_, ?_, ?_⟩, hjq⟩
+  · intro x
+    rw [e1, e2, e3, hq, List.tail_cons]
+    by_cases hx : x = j
+    · subst hx; simp [hnd.1, hv]
+    · simp only [hx, if_false]
+      rw [← h.q_iff x, hq]; simp [hx]
+  · rw [e3, hq]; exact hnd.2
+  · intro x hx
+    rw [e1] at hx
+    rw [e2]
+    have : x ≠ j := by have := hjq.1; omega
+    simp only [this, if_false]
+    exact h.hi x hx
+
+def isMid : Status → Bool
+  | .queued => true
+  | .dequeued => true
+  | .running => true
+  | .ending _ => true
+  | _ => false
+
+def isEnding : Status → Bool
+  | .ending _ => true
+  | _ => false
+
+/-- facts about a status change at `j` from `a` to `b`, both between "queued" and "ending" -/
+theorem status_change_facts {s s' : State} {j : Nat} {a b : Status} (hs : s.status j = a)
+    (e2 : ∀ x, s'.status x = if x = j then b else s.status x)
+    (ha : isMid a = true) (hb : isMid b = true) (hend : isEnding a = true → isEnding b = true) :
+    (∀ x, executed s' x = executed s x) ∧ (∀ x, ended s x = true → ended s' x = true) ∧
+    (∀ x, s'.status x = .waiting ↔ s.status x = .waiting) := by
+  refine ⟨?_, ?_, ?_⟩
+  · intro x
+    rw [Bool.eq_iff_iff, executed_iff, executed_iff, e2]
+    by_cases hx : x = j
+    · subst hx; rw [hs]; simp only [if_true]
+      cases a <;> cases b <;> simp_all [isMid]
+    · simp [hx]
+  · intro x hx
+    unfold ended at hx ⊢
+    rw [e2]
+    by_cases hxj : x = j
+    · subst hxj
+      rw [hs] at hx
+      simp only [if_true]
+      cases a <;> cases b <;> simp_all [isMid, isEnding]
+    · simpa [hxj] using hx
+  · intro x
+    rw [e2]
+    by_cases hx : x = j
+    · subst hx; rw [hs]; simp only [if_true]
+      cases a <;> cases b <;> simp_all [isMid]
+    · simp [hx]
+
 theorem finv_step {fs : FState} {st : FStep} (h : FInv fs) (hen : isEnabledF fs st = true) :
     FInv (applyF fs st) := by
   obtain ⟨hr, hq⟩ := h
@@ -556,7 +722,7 @@ theorem finv_step {fs : FState} {st : FStep} (h : FInv fs) (hen : isEnabledF fs 
     have h0 := header_LInv hinv ks
     have hL : LInv (beginRun fs.s ks fs.maxDeps) fs.s.n [] [] := by
       refine linv_of_status (s := header fs.s ks) (s' := beginRun fs.s ks fs.maxDeps) h0
-        rfl rfl (fun _ => rfl) (fun _ => Iff.rfl) ?_ rfl rfl rfl rfl
+        rfl rfl (fun _ => rfl) (fun _ hx => hx) (fun _ => Iff.rfl) ?_ rfl rfl rfl rfl
       intro j hj
       show (if j = fs.s.n then (fs.maxDeps : Int) else fs.s.deps j) = fs.s.deps j
       have : j ≠ fs.s.n := by omega
@@ -634,131 +800,519 @@ theorem finv_step {fs : FState} {st : FStep} (h : FInv fs) (hen : isEnabledF fs 
           · intro j hj; simp [hj]
           · right; exact ⟨by omega, by simp⟩
         · exact hq.push_last hR.linv.n_eq hR.linv.st_t rfl (fun _ => rfl) rfl
-  | start j =>
-    have hen' : isEnabled fs.s (.start j) = true := hen
-    simp only [isEnabled, Bool.and_eq_true, beq_iff_eq, decide_eq_true_eq, Option.isNone_iff_eq_none] at hen'
-    obtain ⟨hq', hjn, hjq⟩ := qinv_start hq hen'.2.1.1
-    obtain ⟨e3, e3'⟩ := executed_start hjq
-    refine ⟨?_, hq'⟩
-    cases hreg : fs.reg with
-    | none =>
-      have hr : Inv fs.s := by unfold RInv at hr; rw [hreg] at hr; exact hr
-      unfold RInv; simp only [applyF, hreg]
-      exact inv_of_status hr rfl rfl e3 e3' rfl rfl rfl rfl rfl
-    | some r =>
-      have hr : RegInv fs r := by unfold RInv at hr; rw [hreg] at hr; exact hr
-      unfold RInv; simp only [applyF, hreg]
-      refine ⟨linv_of_status hr.linv rfl rfl e3 e3' (fun _ _ => rfl) rfl rfl rfl rfl, hr.keys_t, hr.nd, ?_, hr.bound⟩
-      unfold CtrOk
-      have : r.ds.countP (executed (apply fs.s (.start j))) = r.ds.countP (executed fs.s) :=
-        List.countP_congr (fun x _ => by rw [e3 x])
-      rw [this]; exact hr.ctr
-  | stop =>
-    refine ⟨?_, hq.of_eq rfl rfl rfl⟩
-    cases hreg : fs.reg with
-    | none =>
-      have hr : Inv fs.s := by unfold RInv at hr; rw [hreg] at hr; exact hr
-      unfold RInv; simp only [applyF, hreg]
-      exact inv_of_status hr rfl rfl (fun _ => rfl) (fun _ => Iff.rfl) rfl rfl rfl rfl rfl
-    | some r =>
-      have hr : RegInv fs r := by unfold RInv at hr; rw [hreg] at hr; exact hr
-      unfold RInv; simp only [applyF, hreg]
-      exact ⟨linv_of_status hr.linv rfl rfl (fun _ => rfl) (fun _ => Iff.rfl) (fun _ _ => rfl) rfl rfl rfl rfl,
-        hr.keys_t, hr.nd, hr.ctr, hr.bound⟩
-  | wait =>
-    refine ⟨?_, hq.of_eq rfl rfl rfl⟩
-    cases hreg : fs.reg with
-    | none =>
-      have hr : Inv fs.s := by unfold RInv at hr; rw [hreg] at hr; exact hr
-      unfold RInv; simp only [applyF, hreg]
-      exact inv_of_status hr rfl rfl (fun _ => rfl) (fun _ => Iff.rfl) rfl rfl rfl rfl rfl
-    | some r =>
-      have hr : RegInv fs r := by unfold RInv at hr; rw [hreg] at hr; exact hr
-      unfold RInv; simp only [applyF, hreg]
-      exact ⟨linv_of_status hr.linv rfl rfl (fun _ => rfl) (fun _ => Iff.rfl) (fun _ _ => rfl) rfl rfl rfl rfl,
-        hr.keys_t, hr.nd, hr.ctr, hr.bound⟩
-  | finish j fail order =>
-    have hen' : isEnabled fs.s (.finish j fail order) = true := hen
-    simp only [isEnabled, Bool.and_eq_true, beq_iff_eq, decide_eq_true_eq, isArrangement,
-      List.isPerm_iff] at hen'
-    obtain ⟨_, ⟨hjn, hrun⟩, hperm⟩ := hen'
-    let s1 : State := { fs.s with err := if fail then cas fs.s.err (.task j) else fs.s.err,
-                                  log := .fin j fail :: fs.s.log }
-    have e : apply fs.s (.finish j fail order) = complete s1 j .done order := rfl
-    have hst1 : s1.status j ≠ .waiting := by show fs.s.status j ≠ .waiting; rw [hrun]; simp
-    have hq' : QInv (complete s1 j .done order) := by
-      apply qinv_complete (s := s1) ?_ hq.q_nd hq.hi hblk hjn (by simp) hperm
-      intro x
-      show x ∈ fs.s.queue ↔ x < fs.s.n ∧ fs.s.status x = .queued ∧ x ≠ j
-      rw [hq.q_iff]
-      constructor
-      · rintro ⟨a, b⟩
-        exact ⟨a, b, by intro e; subst e; rw [hrun] at b; cases b⟩
-      · rintro ⟨a, b, _⟩; exact ⟨a, b⟩
-    refine ⟨?_, by simp only [applyF]; rw [e]; exact hq'⟩
-    cases hreg : fs.reg with
-    | none =>
-      have hr : Inv fs.s := by unfold RInv at hr; rw [hreg] at hr; exact hr
-      unfold RInv; simp only [applyF, hreg]
+  | dequeue j =>
+    simp only [isEnabledF, Bool.and_eq_true, beq_iff_eq, decide_eq_true_eq] at hen
+    obtain ⟨hq', hjn, hjq⟩ := hq.pop (s' := (applyF fs (.dequeue j)).s) (v := .dequeued) hen.1.2
+      (by simp) rfl (fun _ => rfl) rfl
+    obtain ⟨f1, f2, f3⟩ := status_change_facts (s' := (applyF fs (.dequeue j)).s) hjq (fun _ => rfl)
+      (by rfl) (by rfl) (by intro e; cases e)
+    exact ⟨rinv_status hr rfl rfl f1 f2 f3 rfl rfl rfl rfl rfl, hq'⟩
+  | check j =>
+    simp only [isEnabledF, Bool.and_eq_true, beq_iff_eq, decide_eq_true_eq] at hen
+    have hjs := hen.2
+    by_cases herr : fs.s.err.isNone = true
+    · have e : applyF fs (.check j) = { fs with s := { fs.s with
+          status := fun x => if x = j then .running else fs.s.status x,
+          log := .start j :: fs.s.log } } := by simp [applyF, herr]
       rw [e]
-      have hinv1 : Inv s1 := inv_of_status hr rfl rfl (fun _ => rfl) (fun _ => Iff.rfl) rfl rfl rfl rfl rfl
-      exact inv_complete hinv1 hjn hst1 (Or.inl rfl)
-    | some r =>
-      have hr : RegInv fs r := by unfold RInv at hr; rw [hreg] at hr; exact hr
-      unfold RInv; simp only [applyF, hreg]
+      obtain ⟨f1, f2, f3⟩ := status_change_facts (s := fs.s) (s' := { fs.s with
+          status := fun x => if x = j then .running else fs.s.status x,
+          log := .start j :: fs.s.log }) hjs (fun _ => rfl) (by rfl) (by rfl) (by intro e; cases e)
+      exact ⟨rinv_status hr rfl rfl f1 f2 f3 rfl rfl rfl rfl rfl,
+        hq.set_status (by rw [hjs]; simp) (by rw [hjs]; simp) (by simp) rfl (fun _ => rfl) rfl⟩
+    · have e : applyF fs (.check j) = { fs with s := { fs.s with
+          status := fun x => if x = j then .ending false else fs.s.status x,
+          log := .skip j :: fs.s.log } } := by simp [applyF, herr]
       rw [e]
-      have hL1 : LInv s1 r.t r.done r.ds :=
-        linv_of_status hr.linv rfl rfl (fun _ => rfl) (fun _ => Iff.rfl) (fun _ _ => rfl) rfl rfl rfl rfl
-      obtain ⟨hL, hC⟩ := linv_complete (s := s1) (d := j) (st := .done) (order := order)
-        (maxDeps := fs.maxDeps) hL1 hr.ctr hr.bound hjn (Or.inl hrun) (Or.inl rfl)
-      exact ⟨hL, hr.keys_t, hr.nd, hC, hr.bound⟩
-  | skip j order =>
-    have hen' : isEnabled fs.s (.skip j order) = true := hen
-    simp only [isEnabled, Bool.and_eq_true, beq_iff_eq, decide_eq_true_eq, isArrangement,
-      List.isPerm_iff] at hen'
-    obtain ⟨_, ⟨⟨hhead, _⟩, _⟩, hperm⟩ := hen'
-    obtain ⟨rest, hqq⟩ := head_mem hhead
-    have hjq : j < fs.s.n ∧ fs.s.status j = .queued := (hq.q_iff j).mp (by rw [hqq]; simp)
-    have hnd := hq.q_nd
-    rw [hqq, List.nodup_cons] at hnd
-    let s1 : State := { fs.s with queue := fs.s.queue.tail, log := .skip j :: fs.s.log }
-    have e : apply fs.s (.skip j order) = complete s1 j .skipped order := rfl
-    have hst1 : s1.status j ≠ .waiting := by show fs.s.status j ≠ .waiting; rw [hjq.2]; simp
-    have hq' : QInv (complete s1 j .skipped order) := by
-      apply qinv_complete (s := s1) ?_ ?_ hq.hi hblk hjq.1 (by simp) hperm
-      · intro x
-        show x ∈ fs.s.queue.tail ↔ x < fs.s.n ∧ fs.s.status x = .queued ∧ x ≠ j
-        rw [← and_assoc, ← hq.q_iff, hqq, List.tail_cons]
+      obtain ⟨f1, f2, f3⟩ := status_change_facts (s := fs.s) (s' := { fs.s with
+          status := fun x => if x = j then .ending false else fs.s.status x,
+          log := .skip j :: fs.s.log }) hjs (fun _ => rfl) (by rfl) (by rfl) (by intro e; cases e)
+      exact ⟨rinv_status hr rfl rfl f1 f2 f3 rfl rfl rfl rfl rfl,
+        hq.set_status (by rw [hjs]; simp) (by rw [hjs]; simp) (by simp) rfl (fun _ => rfl) rfl⟩
+  | finish j fail =>
+    simp only [isEnabledF, Bool.and_eq_true, beq_iff_eq, decide_eq_true_eq] at hen
+    have hjs := hen.2
+    obtain ⟨f1, f2, f3⟩ := status_change_facts (s := fs.s) (s' := (applyF fs (.finish j fail)).s) hjs
+      (fun _ => rfl) (by rfl) (by rfl) (by intro e; cases e)
+    exact ⟨rinv_status hr rfl rfl f1 f2 f3 rfl rfl rfl rfl rfl,
+      hq.set_status (by rw [hjs]; simp) (by rw [hjs]; simp) (by simp) rfl (fun _ => rfl) rfl⟩
+  | dereg j o =>
+    simp only [isEnabledF, Bool.and_eq_true, decide_eq_true_eq] at hen
+    have hend : ended fs.s j = true := by
+      unfold ended
+      cases hs : fs.s.status j <;> rw [hs] at hen <;> simp_all
+    refine ⟨?_, hq.of_eq rfl rfl rfl⟩
+    have e : (applyF fs (.dereg j o)) = { fs with s := deregS fs.s j o } := rfl
+    rw [e]
+    unfold RInv at hr ⊢
+    cases hreg : fs.reg with
+    | none =>
+      rw [hreg] at hr; simp only [hreg]
+      exact inv_dereg hr hend
+    | some r =>
+      rw [hreg] at hr; simp only [hreg]
+      exact ⟨linv_dereg hr.linv hend, hr.keys_t, hr.nd, hr.ctr, hr.bound⟩
+  | notify j order =>
+    simp only [isEnabledF, Bool.and_eq_true, decide_eq_true_eq, isArrangement, List.isPerm_iff] at hen
+    obtain ⟨⟨⟨hjn, hsj⟩, _⟩, hperm⟩ := hen
+    cases hs : fs.s.status j with
+    | ending ran =>
+      have e : applyF fs (.notify j order) =
+          { fs with s := complete fs.s j (if ran then .done else .skipped) order } := by
+        simp [applyF, hs]
+      rw [e]
+      have hst : fs.s.status j ≠ .waiting := by rw [hs]; simp
+      have hne : executed fs.s j = false := by rw [executed_false_iff, hs]; simp
+      have hex : (if ran then Status.done else Status.skipped) = .done ∨
+          (if ran then Status.done else Status.skipped) = .skipped := by cases ran <;> simp
+      have hq' : QInv (complete fs.s j (if ran then .done else .skipped) order) := by
+        apply qinv_complete ?_ hq.q_nd hq.hi hblk hjn (by cases ran <;> simp) hperm
+        intro x
+        rw [hq.q_iff]
         constructor
-        · intro hx
-          exact ⟨List.mem_cons_of_mem _ hx, by intro e; subst e; exact hnd.1 hx⟩
         · rintro ⟨a, b⟩
-          rcases List.mem_cons.mp a with a | a
-          · exact absurd a b
-          · exact a
-      · show fs.s.queue.tail.Nodup
-        rw [hqq]; exact hnd.2
-    refine ⟨?_, by simp only [applyF]; rw [e]; exact hq'⟩
-    cases hreg : fs.reg with
-    | none =>
-      have hr : Inv fs.s := by unfold RInv at hr; rw [hreg] at hr; exact hr
-      unfold RInv; simp only [applyF, hreg]
-      rw [e]
-      have hinv1 : Inv s1 := inv_of_status hr rfl rfl (fun _ => rfl) (fun _ => Iff.rfl) rfl rfl rfl rfl rfl
-      exact inv_complete hinv1 hjq.1 hst1 (Or.inr rfl)
-    | some r =>
-      have hr : RegInv fs r := by unfold RInv at hr; rw [hreg] at hr; exact hr
-      unfold RInv; simp only [applyF, hreg]
-      rw [e]
-      have hL1 : LInv s1 r.t r.done r.ds :=
-        linv_of_status hr.linv rfl rfl (fun _ => rfl) (fun _ => Iff.rfl) (fun _ _ => rfl) rfl rfl rfl rfl
-      obtain ⟨hL, hC⟩ := linv_complete (s := s1) (d := j) (st := .skipped) (order := order)
-        (maxDeps := fs.maxDeps) hL1 hr.ctr hr.bound hjq.1 (Or.inr hjq.2) (Or.inr rfl)
-      exact ⟨hL, hr.keys_t, hr.nd, hC, hr.bound⟩
+          exact ⟨a, b, by intro e; subst e; rw [hs] at b; cases b⟩
+        · rintro ⟨a, b, _⟩; exact ⟨a, b⟩
+      refine ⟨?_, hq'⟩
+      unfold RInv at hr ⊢
+      cases hreg : fs.reg with
+      | none =>
+        rw [hreg] at hr; simp only [hreg]
+        exact inv_complete hr hjn hst hex
+      | some r =>
+        rw [hreg] at hr; simp only [hreg]
+        obtain ⟨hL, hC⟩ := linv_complete (d := j) (order := order) (maxDeps := fs.maxDeps)
+          hr.linv hr.ctr hr.bound hjn hst hne hex
+        exact ⟨hL, hr.keys_t, hr.nd, hC, hr.bound⟩
+    | _ => rw [hs] at hsj; simp at hsj
+  | stop =>
+    exact ⟨rinv_status hr rfl rfl (fun _ => rfl) (fun _ hx => hx) (fun _ => Iff.rfl) rfl rfl rfl rfl rfl,
+      hq.of_eq rfl rfl rfl⟩
+  | wait =>
+    exact ⟨rinv_status hr rfl rfl (fun _ => rfl) (fun _ hx => hx) (fun _ => Iff.rfl) rfl rfl rfl rfl rfl,
+      hq.of_eq rfl rfl rfl⟩
 
 theorem finv_reachable {w m : Nat} {fs : FState} (hr : ReachableF w m fs) : FInv fs := by
   induction hr with
   | init => exact finv_init w m
   | step st _ hen ih => exact finv_step ih hen
+
+/-! ## History (log) invariants of the finest relation -/
+
+/-- the body of the task has started -/
+def bodyStarted : Status → Bool
+  | .running => true
+  | .ending true => true
+  | .done => true
+  | _ => false
+
+structure LogInvF (s : State) : Prop where
+  f_cnt : ∀ j, s.log.count (.start j) = if bodyStarted (s.status j) then 1 else 0
+  f_fin : ∀ j, (s.status j = .ending true ∨ s.status j = .done) → ∃ f, Event.fin j f ∈ s.log
+  f_skip : ∀ j, (s.status j = .ending false ∨ s.status j = .skipped) → s.err.isSome = true
+  f_err : s.err = firstErr s.log
+  f_order : OrderedLog s.n s.keys s.log
+
+structure WInvF (fs : FState) : Prop where
+  w : ∀ e, fs.s.waited = some e → e = fs.s.err ∧ fs.reg = none ∧ allExecuted fs.s = true
+
+structure FInv2 (fs : FState) : Prop where
+  inv : FInv fs
+  lg : LogInvF fs.s
+  wt : WInvF fs
+
+theorem loginvF_init (w : Nat) : LogInvF (init w) := by
+  refine ⟨by simp [init, bodyStarted], by simp [init], by simp [init], by simp [init, firstErr], ?_⟩
+  intro l1 l2 j hl
+  have : ([] : List Event) = l1 ++ Event.start j :: l2 := hl
+  simp at this
+
+/-- steps that change neither log nor err, and whose status changes keep `bodyStarted`, the
+"has a fin event" class and the "was skipped" class -/
+theorem LogInvF.of_status {s s' : State} (h : LogInvF s) (e1 : s.n ≤ s'.n)
+    (e2 : ∀ x, x < s.n → s'.keys x = s.keys x) (elog : s'.log = s.log) (eerr : s'.err = s.err)
+    (hb : ∀ x, bodyStarted (s'.status x) = bodyStarted (s.status x))
+    (hf : ∀ x, (s'.status x = .ending true ∨ s'.status x = .done) →
+      (s.status x = .ending true ∨ s.status x = .done))
+    (hk : ∀ x, (s'.status x = .ending false ∨ s'.status x = .skipped) →
+      (s.status x = .ending false ∨ s.status x = .skipped)) : LogInvF s' := by
+  refine ⟨?_, ?_, ?_, by rw [eerr, elog]; exact h.f_err, by rw [elog]; exact h.f_order.mono e1 e2⟩
+  · intro j; rw [elog, hb]; exact h.f_cnt j
+  · intro j hj; rw [elog]; exact h.f_fin j (hf j hj)
+  · intro j hj; rw [eerr]; exact h.f_skip j (hk j hj)
+
+theorem loginvF_complete {s : State} {d : Nat} {ran : Bool} {order : List Nat} (h : LogInvF s)
+    (hblk : ∀ d j, s.blocked d j = true → d < j ∧ j < s.n ∧ executed s d = false ∧ s.status j = .waiting)
+    (hs : s.status d = .ending ran) :
+    LogInvF (complete s d (if ran then .done else .skipped) order) := by
+  have hother : ∀ x, x ≠ d →
+      (complete s d (if ran then .done else .skipped) order).status x = s.status x ∨
+      (s.status x = .waiting ∧ (complete s d (if ran then .done else .skipped) order).status x = .queued) :=
+    fun x hx => complete_status_other hblk hx
+  have hd : (complete s d (if ran then .done else .skipped) order).status d =
+      (if ran then .done else .skipped) := by rw [complete_status]; simp
+  apply LogInvF.of_status (s' := complete s d (if ran then .done else .skipped) order) h
+    (Nat.le_refl _) (fun _ _ => rfl) rfl rfl
+  · intro x
+    by_cases hx : x = d
+    · subst hx; rw [hd, hs]; cases ran <;> rfl
+    · rcases hother x hx with a | a
+      · rw [a]
+      · rw [a.1, a.2]; rfl
+  · intro x hx'
+    by_cases hx : x = d
+    · subst hx; rw [hd] at hx'; rw [hs]; cases ran <;> simp_all
+    · rcases hother x hx with a | a
+      · rw [a] at hx'; exact hx'
+      · rw [a.2] at hx'; rcases hx' with e | e <;> cases e
+  · intro x hx'
+    by_cases hx : x = d
+    · subst hx; rw [hd] at hx'; rw [hs]; cases ran <;> simp_all
+    · rcases hother x hx with a | a
+      · rw [a] at hx'; exact hx'
+      · rw [a.2] at hx'; rcases hx' with e | e <;> cases e
+
+theorem allExecuted_iff (s : State) : allExecuted s = true ↔ ∀ j, j < s.n → executed s j = true := by
+  simp [allExecuted, List.all_eq_true, List.mem_range]
+
+/-- every step needs `Wait` not to have returned (explicitly, or because after `Wait` nothing
+is being registered and every task is executed) -/
+theorem waited_none_of_enabled {fs : FState} {st : FStep} (hw : WInvF fs)
+    (hen : isEnabledF fs st = true) : fs.s.waited = none := by
+  cases hwt : fs.s.waited with
+  | none => rfl
+  | some e =>
+    exfalso
+    obtain ⟨_, hreg, hall⟩ := hw.w e hwt
+    rw [allExecuted_iff] at hall
+    have hne : ∀ j, j < fs.s.n → fs.s.status j = .done ∨ fs.s.status j = .skipped :=
+      fun j hj => (executed_iff _ _).mp (hall j hj)
+    cases st with
+    | runBegin ks => simp [isEnabledF, hwt] at hen
+    | runKey => simp [isEnabledF, hreg] at hen
+    | runEnd => simp [isEnabledF, hreg] at hen
+    | dequeue j => simp [isEnabledF, hwt] at hen
+    | check j =>
+      simp only [isEnabledF, Bool.and_eq_true, beq_iff_eq, decide_eq_true_eq] at hen
+      rcases hne j hen.1 with a | a <;> rw [a] at hen <;> simp at hen
+    | finish j f =>
+      simp only [isEnabledF, Bool.and_eq_true, beq_iff_eq, decide_eq_true_eq] at hen
+      rcases hne j hen.1 with a | a <;> rw [a] at hen <;> simp at hen
+    | dereg j o =>
+      simp only [isEnabledF, Bool.and_eq_true, decide_eq_true_eq] at hen
+      rcases hne j hen.1.1 with a | a <;> rw [a] at hen <;> simp at hen
+    | notify j o =>
+      simp only [isEnabledF, Bool.and_eq_true, decide_eq_true_eq] at hen
+      rcases hne j hen.1.1.1 with a | a <;> rw [a] at hen <;> simp at hen
+    | stop => simp [isEnabledF, hwt] at hen
+    | wait => simp [isEnabledF, hwt] at hen
+
+theorem waited_applyF {fs : FState} {st : FStep} (hst : st ≠ .wait) :
+    (applyF fs st).s.waited = fs.s.waited := by
+  cases st with
+  | runBegin ks => rfl
+  | runKey =>
+    simp only [applyF]
+    cases fs.reg with
+    | none => rfl
+    | some r =>
+      cases hp : r.pending with
+      | nil => simp only [hp]
+      | cons kr rest => simp only [hp]; exact (regKey_same r.t (fs.s, r.ds) kr).waited
+  | runEnd =>
+    simp only [applyF]
+    split
+    · unfold endRun; dsimp only; split <;> rfl
+    · rfl
+  | dequeue j => rfl
+  | check j => simp only [applyF]; split <;> rfl
+  | finish j f => rfl
+  | dereg j o => rfl
+  | notify j o => simp only [applyF]; split <;> rfl
+  | stop => rfl
+  | wait => exact absurd rfl hst
+
+theorem firstErr_cons_fin_true (j : Nat) (l : List Event) :
+    firstErr (Event.fin j true :: l) = cas (firstErr l) (.task j) := by
+  simp only [firstErr]; cases firstErr l <;> rfl
+
+theorem firstErr_cons_stop (l : List Event) :
+    firstErr (Event.stop :: l) = cas (firstErr l) .stopped := by
+  simp only [firstErr]; cases firstErr l <;> rfl
+
+theorem finv2_step {fs : FState} {st : FStep} (h : FInv2 fs) (hen : isEnabledF fs st = true) :
+    FInv2 (applyF fs st) := by
+  have hinv' := finv_step h.inv hen
+  have hwn := waited_none_of_enabled h.wt hen
+  have hr := h.inv.r
+  have hq := h.inv.q
+  have hblk := hr.blk
+  have hl := h.lg
+  -- Wait part
+  have hW : WInvF (applyF fs st) := by
+    by_cases hst : st = .wait
+    · subst hst
+      simp only [isEnabledF, Bool.and_eq_true, Option.isNone_iff_eq_none] at hen
+      constructor
+      intro e he
+      have : (applyF fs .wait).s.waited = some fs.s.err := rfl
+      rw [this] at he; cases he
+      exact ⟨rfl, hen.1.1, hen.2⟩
+    · constructor
+      intro e he
+      rw [waited_applyF hst, hwn] at he; cases he
+  refine ⟨hinv', ?_, hW⟩
+  cases st with
+  | runBegin ks =>
+    have hst : ∀ x, (beginRun fs.s ks fs.maxDeps).status x = fs.s.status x := by
+      intro x
+      show (if x = fs.s.n then Status.waiting else fs.s.status x) = _
+      by_cases hx : x = fs.s.n
+      · rw [hx, hq.hi fs.s.n (Nat.le_refl _)]; simp
+      · simp [hx]
+    apply LogInvF.of_status (s' := beginRun fs.s ks fs.maxDeps) hl (Nat.le_succ _) ?_ rfl rfl
+    · intro x; rw [hst]
+    · intro x hx; rw [hst] at hx; exact hx
+    · intro x hx; rw [hst] at hx; exact hx
+    · intro x hx
+      show (if x = fs.s.n then ks else fs.s.keys x) = _
+      have : x ≠ fs.s.n := by omega
+      simp [this]
+  | runKey =>
+    cases hreg : fs.reg with
+    | none => simp [isEnabledF, hreg] at hen
+    | some r =>
+      cases hp : r.pending with
+      | nil => simp [isEnabledF, hreg, hp] at hen
+      | cons kr rest =>
+        have hsm := regKey_same r.t (fs.s, r.ds) kr
+        simp only [applyF, hreg, hp]
+        apply LogInvF.of_status (s' := (regKey r.t (fs.s, r.ds) kr).1) hl (by rw [hsm.n]; exact Nat.le_refl _)
+          (fun x _ => by rw [hsm.keys]) hsm.log hsm.err
+        · intro x; rw [hsm.status]
+        · intro x hx; rw [hsm.status] at hx; exact hx
+        · intro x hx; rw [hsm.status] at hx; exact hx
+  | runEnd =>
+    cases hreg : fs.reg with
+    | none => simp [isEnabledF, hreg] at hen
+    | some r =>
+      have hR : RegInv fs r := by unfold RInv at hr; rw [hreg] at hr; exact hr
+      have hwt := hR.linv.st_t
+      simp only [applyF, hreg]
+      unfold endRun
+      dsimp only
+      split
+      · exact LogInvF.of_status hl (Nat.le_refl _) (fun _ _ => rfl) rfl rfl (fun _ => rfl)
+          (fun _ hx => hx) (fun _ hx => hx)
+      · refine LogInvF.of_status hl (Nat.le_refl _) (fun _ _ => rfl) rfl rfl ?_ ?_ ?_
+        · intro x
+          show bodyStarted (if x = r.t then Status.queued else fs.s.status x) = _
+          by_cases hx : x = r.t
+          · rw [hx, hwt]; simp [bodyStarted]
+          · simp [hx]
+        · intro x hx
+          have hx' : (if x = r.t then Status.queued else fs.s.status x) = .ending true ∨
+              (if x = r.t then Status.queued else fs.s.status x) = .done := hx
+          by_cases hxt : x = r.t
+          · simp [hxt] at hx'
+          · simpa [hxt] using hx'
+        · intro x hx
+          have hx' : (if x = r.t then Status.queued else fs.s.status x) = .ending false ∨
+              (if x = r.t then Status.queued else fs.s.status x) = .skipped := hx
+          by_cases hxt : x = r.t
+          · simp [hxt] at hx'
+          · simpa [hxt] using hx'
+  | dequeue j =>
+    simp only [isEnabledF, Bool.and_eq_true, beq_iff_eq, decide_eq_true_eq] at hen
+    obtain ⟨rest, hqq⟩ := head_mem hen.1.2
+    have hjq : fs.s.status j = .queued := ((hq.q_iff j).mp (by rw [hqq]; simp)).2
+    refine LogInvF.of_status (s' := (applyF fs (.dequeue j)).s) hl (Nat.le_refl _) (fun _ _ => rfl) rfl rfl ?_ ?_ ?_
+    · intro x
+      show bodyStarted (if x = j then Status.dequeued else fs.s.status x) = _
+      by_cases hx : x = j
+      · rw [hx, hjq]; simp [bodyStarted]
+      · simp [hx]
+    · intro x hx
+      have hx' : (if x = j then Status.dequeued else fs.s.status x) = .ending true ∨
+          (if x = j then Status.dequeued else fs.s.status x) = .done := hx
+      by_cases hxt : x = j
+      · simp [hxt] at hx'
+      · simpa [hxt] using hx'
+    · intro x hx
+      have hx' : (if x = j then Status.dequeued else fs.s.status x) = .ending false ∨
+          (if x = j then Status.dequeued else fs.s.status x) = .skipped := hx
+      by_cases hxt : x = j
+      · simp [hxt] at hx'
+      · simpa [hxt] using hx'
+  | check j =>
+    simp only [isEnabledF, Bool.and_eq_true, beq_iff_eq, decide_eq_true_eq] at hen
+    obtain ⟨hjn, hjs⟩ := hen
+    by_cases herr : fs.s.err.isNone = true
+    · have e : applyF fs (.check j) = { fs with s := { fs.s with
+          status := fun x => if x = j then .running else fs.s.status x,
+          log := .start j :: fs.s.log } } := by simp [applyF, herr]
+      rw [e]
+      have herr' : fs.s.err = none := by simpa using herr
+      refine ⟨?_, ?_, ?_, ?_, ?_⟩
+      · intro x
+        show (Event.start j :: fs.s.log).count (.start x) =
+          if bodyStarted (if x = j then Status.running else fs.s.status x) then 1 else 0
+        rw [List.count_cons, hl.f_cnt x]
+        by_cases hx : x = j
+        · subst hx; simp [hjs, bodyStarted]
+        · have : ¬ (j = x) := fun e => hx e.symm
+          simp [hx, this]
+      · intro x hx
+        have hx' : (if x = j then Status.running else fs.s.status x) = .ending true ∨
+            (if x = j then Status.running else fs.s.status x) = .done := hx
+        by_cases hxt : x = j
+        · simp [hxt] at hx'
+        · simp only [hxt, if_false] at hx'
+          obtain ⟨f, hf⟩ := hl.f_fin x hx'
+          exact ⟨f, List.mem_cons_of_mem _ hf⟩
+      · intro x hx
+        have hx' : (if x = j then Status.running else fs.s.status x) = .ending false ∨
+            (if x = j then Status.running else fs.s.status x) = .skipped := hx
+        by_cases hxt : x = j
+        · simp [hxt] at hx'
+        · simp only [hxt, if_false] at hx'
+          exact hl.f_skip x hx'
+      · show fs.s.err = firstErr (Event.start j :: fs.s.log)
+        rw [firstErr_cons_neutral (by simp)]; exact hl.f_err
+      · show OrderedLog fs.s.n fs.s.keys (Event.start j :: fs.s.log)
+        apply hl.f_order.cons_start hjn
+        · rw [← hl.f_err]; exact herr'
+        · intro i hi hc
+          have hnw : fs.s.status j ≠ .waiting := by rw [hjs]; simp
+          have hsafe : ended fs.s i = true ∨ Chain fs.s i j := by
+            unfold RInv at hr
+            split at hr
+            · exact hr.safe i j hi hjn hc
+            · rename_i r _
+              have hjt : j ≠ r.t := by intro e; rw [e] at hnw; exact hnw hr.linv.st_t
+              exact hr.linv.safe i j hi (by have := hr.linv.n_eq; omega) hc
+          rcases hsafe with a | a
+          · unfold ended at a
+            cases hsi : fs.s.status i with
+            | ending r =>
+              cases r with
+              | true => exact hl.f_fin i (Or.inl hsi)
+              | false =>
+                have := hl.f_skip i (Or.inl hsi)
+                rw [herr'] at this; cases this
+            | done => exact hl.f_fin i (Or.inr hsi)
+            | skipped =>
+              have := hl.f_skip i (Or.inr hsi)
+              rw [herr'] at this; cases this
+            | waiting => rw [hsi] at a; cases a
+            | queued => rw [hsi] at a; cases a
+            | dequeued => rw [hsi] at a; cases a
+            | running => rw [hsi] at a; cases a
+          · obtain ⟨x, hx⟩ := a.has_blocker
+            exact absurd (hblk x j hx).2.2.2 hnw
+    · have e : applyF fs (.check j) = { fs with s := { fs.s with
+          status := fun x => if x = j then .ending false else fs.s.status x,
+          log := .skip j :: fs.s.log } } := by simp [applyF, herr]
+      rw [e]
+      have herr' : fs.s.err.isSome = true := by
+        cases he : fs.s.err with
+        | none => rw [he] at herr; simp at herr
+        | some x => rfl
+      refine ⟨?_, ?_, ?_, ?_, ?_⟩
+      · intro x
+        show (Event.skip j :: fs.s.log).count (.start x) =
+          if bodyStarted (if x = j then Status.ending false else fs.s.status x) then 1 else 0
+        rw [List.count_cons, hl.f_cnt x]
+        by_cases hx : x = j
+        · subst hx; simp [hjs, bodyStarted]
+        · simp [hx]
+      · intro x hx
+        have hx' : (if x = j then Status.ending false else fs.s.status x) = .ending true ∨
+            (if x = j then Status.ending false else fs.s.status x) = .done := hx
+        by_cases hxt : x = j
+        · simp [hxt] at hx'
+        · simp only [hxt, if_false] at hx'
+          obtain ⟨f, hf⟩ := hl.f_fin x hx'
+          exact ⟨f, List.mem_cons_of_mem _ hf⟩
+      · intro x hx
+        have hx' : (if x = j then Status.ending false else fs.s.status x) = .ending false ∨
+            (if x = j then Status.ending false else fs.s.status x) = .skipped := hx
+        by_cases hxt : x = j
+        · exact herr'
+        · simp only [hxt, if_false] at hx'
+          exact hl.f_skip x hx'
+      · show fs.s.err = firstErr (Event.skip j :: fs.s.log)
+        rw [firstErr_cons_neutral (by simp)]; exact hl.f_err
+      · show OrderedLog fs.s.n fs.s.keys (Event.skip j :: fs.s.log)
+        exact hl.f_order.cons_other (by simp)
+  | finish j fail =>
+    simp only [isEnabledF, Bool.and_eq_true, beq_iff_eq, decide_eq_true_eq] at hen
+    obtain ⟨hjn, hjs⟩ := hen
+    refine ⟨?_, ?_, ?_, ?_, ?_⟩
+    · intro x
+      show (Event.fin j fail :: fs.s.log).count (.start x) =
+        if bodyStarted (if x = j then Status.ending true else fs.s.status x) then 1 else 0
+      rw [List.count_cons, hl.f_cnt x]
+      by_cases hx : x = j
+      · subst hx; simp [hjs, bodyStarted]
+      · simp [hx]
+    · intro x hx
+      have hx' : (if x = j then Status.ending true else fs.s.status x) = .ending true ∨
+          (if x = j then Status.ending true else fs.s.status x) = .done := hx
+      by_cases hxt : x = j
+      · subst hxt; exact ⟨fail, List.mem_cons_self⟩
+      · simp only [hxt, if_false] at hx'
+        obtain ⟨f, hf⟩ := hl.f_fin x hx'
+        exact ⟨f, List.mem_cons_of_mem _ hf⟩
+    · intro x hx
+      have hx' : (if x = j then Status.ending true else fs.s.status x) = .ending false ∨
+          (if x = j then Status.ending true else fs.s.status x) = .skipped := hx
+      show (if fail then cas fs.s.err (.task j) else fs.s.err).isSome = true
+      by_cases hxt : x = j
+      · simp [hxt] at hx'
+      · simp only [hxt, if_false] at hx'
+        have := hl.f_skip x hx'
+        cases fail
+        · exact this
+        · simp only [if_true]; exact isSome_cas _ _
+    · show (if fail then cas fs.s.err (.task j) else fs.s.err) = firstErr (Event.fin j fail :: fs.s.log)
+      cases fail
+      · rw [firstErr_cons_neutral (by simp)]; exact hl.f_err
+      · rw [firstErr_cons_fin_true, ← hl.f_err]; rfl
+    · show OrderedLog fs.s.n fs.s.keys (Event.fin j fail :: fs.s.log)
+      exact hl.f_order.cons_other (by simp)
+  | dereg j o =>
+    exact LogInvF.of_status (s' := (applyF fs (.dereg j o)).s) hl (Nat.le_refl _) (fun _ _ => rfl) rfl rfl
+      (fun _ => rfl) (fun _ hx => hx) (fun _ hx => hx)
+  | notify j order =>
+    simp only [isEnabledF, Bool.and_eq_true, decide_eq_true_eq] at hen
+    cases hs : fs.s.status j with
+    | ending ran =>
+      have e : applyF fs (.notify j order) =
+          { fs with s := complete fs.s j (if ran then .done else .skipped) order } := by
+        simp [applyF, hs]
+      rw [e]
+      exact loginvF_complete hl hblk hs
+    | _ => rw [hs] at hen; simp at hen
+  | stop =>
+    refine ⟨?_, ?_, ?_, ?_, ?_⟩
+    · intro x
+      show (Event.stop :: fs.s.log).count (.start x) = _
+      rw [List.count_cons, hl.f_cnt x]; simp; rfl
+    · intro x hx
+      obtain ⟨f, hf⟩ := hl.f_fin x hx
+      exact ⟨f, List.mem_cons_of_mem _ hf⟩
+    · intro x _; exact isSome_cas _ _
+    · show cas fs.s.err .stopped = firstErr (Event.stop :: fs.s.log)
+      rw [firstErr_cons_stop, ← hl.f_err]
+    · show OrderedLog fs.s.n fs.s.keys (Event.stop :: fs.s.log)
+      exact hl.f_order.cons_other (by simp)
+  | wait =>
+    exact ⟨hl.f_cnt, hl.f_fin, hl.f_skip, hl.f_err, hl.f_order⟩
+
+theorem finv2_reachable {w m : Nat} {fs : FState} (hr : ReachableF w m fs) : FInv2 fs := by
+  induction hr with
+  | init => exact ⟨finv_init w m, loginvF_init w, ⟨by intro e he; cases he⟩⟩
+  | step st _ hen ih => exact finv2_step ih hen
 
 end HyperModel.Executor
